@@ -24,7 +24,9 @@ def base():
                              'packageVarsWeak: [WEAKG]\n')
     f['recipes/root.yaml'] = ('root: True\n'
                               'depends:\n'
+                              '    - name: sandbox\n      use: [sandbox]\n      forward: True\n'
                               '    - name: tool-t\n      use: [tools]\n      forward: True\n'
+                              '    - via0\n'
                               '    - lib\n'
                               '    - app\n'
                               '    - m-p1\n'
@@ -34,6 +36,10 @@ def base():
                               '    - leaf2\n'
                               '    - mid2\n'
                               '    - wrap\n'
+                              '    - sbaware\n'
+                              '    - weakuser\n'
+                              '    - fpuser\n'
+                              '    - fpuser2\n'
                               'environment:\n    CV: "cv1"\n    LV: "one"\n    WV: "weak1"\n    PV: "p1"\n'
                               'buildVars: [GLOBAL]\n'
                               'buildScript: |\n    echo root-build "$@"\n'
@@ -92,6 +98,22 @@ def base():
     f['recipes/tool-t2.yaml'] = ('buildScript: |\n    echo tool2-build\n'
                                  'packageScript: |\n    echo tool2-pkg\n'
                                  'provideTools:\n    t:\n        path: "bin2"\n')
+    # the shared recipe is first reached with A and B unset
+    f['recipes/via0.yaml'] = ('depends: [common]\nbuildScript: |\n    echo via0 $1\npackageScript: |\n    echo via0-pkg\n')
+    # fingerprinted tool used only by the package step, plain tool used by the build step
+    f['recipes/tool-fp.yaml'] = ('buildScript: |\n    echo tool-fp\npackageScript: |\n    echo tool-fp-pkg\n'
+                                 'provideTools:\n    fpa:\n        path: "."\n        fingerprintScript: "echo fpa"\n        fingerprintIf: True\n')
+    f['recipes/tool-plain.yaml'] = ('buildScript: |\n    echo tool-plain\npackageScript: |\n    echo tool-plain-pkg\n'
+                                    'provideTools:\n    zplain: "."\n')
+    for n, extra in (('fpuser', ''), ('fpuser2', 'fingerprintIf: False\n')):
+        f['recipes/%s.yaml' % n] = ('depends:\n    - name: tool-fp\n      use: [tools]\n    - name: tool-plain\n      use: [tools]\n'
+                                    'buildTools: [zplain]\npackageTools: [fpa]\n' + extra +
+                                    'buildScript: |\n    echo %s\npackageScript: |\n    echo %s-pkg\n' % (n, n))
+    f['recipes/sandbox.yaml'] = ('buildScript: |\n    echo sandbox\npackageScript: |\n    echo sandbox-pkg\n'
+                                 'provideSandbox:\n    paths: ["/bin"]\n    environment: {SBVAR: "sb1"}\n')
+    f['recipes/sbaware.yaml'] = ('buildVars: [S]\nprivateEnvironment:\n    S: "$(is-sandbox-enabled)"\n'
+                                 'buildScript: |\n    echo sbaware $S\npackageScript: |\n    echo sbaware-pkg\n')
+    f['recipes/weakuser.yaml'] = ('buildToolsWeak: [t]\nbuildScript: |\n    echo weakuser\npackageScript: |\n    echo weakuser-pkg\n')
     return f
 
 
@@ -141,6 +163,7 @@ EDITS = [
     ('tool-build-script', True, sub('recipes/tool-t.yaml', 'echo tool-build', 'echo tool-build2')),
     ('lib-drop-tool', True, sub('recipes/lib.yaml', 'buildTools: [t]\n', '')),
     ('app-dep-drop', True, sub('recipes/root.yaml', '    - app\n', '')),
+    ('root-dep-order2', True, many(sub('recipes/root.yaml', "    - via0\n    - lib\n", "    - lib\n"), sub('recipes/root.yaml', "    - fpuser2\n", "    - fpuser2\n    - via0\n"))),
     ('root-dep-order', True, sub('recipes/root.yaml', '    - lib\n    - app\n', '    - app\n    - lib\n')),
     ('provided-var', True, sub('recipes/lib.yaml', 'PROVIDED: "from-lib-${LV}"', 'PROVIDED: "from-lib2-${LV}"')),
     ('git-branch', True, sub('recipes/lib.yaml', 'branch: "main"', 'branch: "dev"')),
@@ -160,6 +183,7 @@ EDITS = [
     ('common-b', True, sub('recipes/via.yaml', 'environment: {B: "b1"}', 'environment: {B: "b2"}')),
     ('tool2-path', True, sub('recipes/tool-t2.yaml', 'path: "bin2"', 'path: "bin3"')),
     ('tool2-script', True, sub('recipes/tool-t2.yaml', 'echo tool2-build', 'echo tool2-build2')),
+    ('sandbox-script', True, sub('recipes/sandbox.yaml', 'echo sandbox\n', 'echo sandbox2\n')),
     ('opt-leaf', True, sub('default.yaml', 'OPT: ""', 'OPT: "1"')),
     ('leaf-script', False, sub('recipes/leaf.yaml', 'echo leaf\n', 'echo leaf2\n')),       # leaf is not used while OPT is empty
     # ---- documented as id-irrelevant
@@ -172,6 +196,7 @@ EDITS = [
     ('yaml-comment', False, sub('recipes/lib.yaml', 'inherit: [mid]\n', '# a comment\ninherit: [mid]\n')),
     ('yaml-key-order', False, sub('recipes/tool-t.yaml', 'path: "bin"\n        libs: ["lib"]\n', 'libs: ["lib"]\n        path: "bin"\n')),
     ('tool-env', False, sub('recipes/tool-t.yaml', 'TENV: "te1"', 'TENV: "te2"')),        # nobody consumes TENV
+    ('sandbox-env', False, sub('recipes/sandbox.yaml', 'SBVAR: "sb1"', 'SBVAR: "sb2"')),     # nobody consumes SBVAR
     ('whitelist', False, sub('default.yaml', 'whitelist: ["WL1"]', 'whitelist: ["WL1", "WL2"]')),
     ('unused-var', False, sub('recipes/root.yaml', 'PV: "p1"\n', 'PV: "p1"\n    UNUSED: "u"\n')),
 ]
